@@ -1300,9 +1300,8 @@ class FakedWBEMConnection(WBEMConnection):
                 if isinstance(param, CIMParameter):
                     params_dict[param.name] = param
                 elif isinstance(param, tuple):
-                    params_dict[param[0]] = CIMParameter(param[0],
-                                                         cimtype(param[1]),
-                                                         value=param[1])
+                    params_dict[param[0]] = self._methodcall_param(
+                        methodname, localobject, param[0], param[1])
                 else:
                     raise TypeError(
                         _format("InvokeMethod of method {0!A} on object {1!A}: "
@@ -1313,8 +1312,8 @@ class FakedWBEMConnection(WBEMConnection):
                                 methodname, localobject, type(param)))
         if params:
             for pname, pvalue in params.items():
-                params_dict[pname] = CIMParameter(
-                    pname, cimtype(pvalue), value=pvalue)
+                params_dict[pname] = self._methodcall_param(
+                    methodname, localobject, pname, pvalue)
 
         result = self._meth_InvokeMethod(methodname, localobject, params_dict)
 
@@ -1323,6 +1322,36 @@ class FakedWBEMConnection(WBEMConnection):
             time.sleep(self._response_delay)
 
         return result
+
+    def _methodcall_param(self, methodname, localobject, pname, pvalue):
+        """
+        Return the CIMParameter object for an input parameter of InvokeMethod
+        that was specified as name and value.
+
+        A value of None, an empty array and an array whose first item is
+        None do not tell their CIM type. WBEMConnection.InvokeMethod() sends
+        them to the server without type, so they get the type the method
+        declares for the parameter, as a server would do.
+        """
+        untyped = pvalue is None or (
+            isinstance(pvalue, (list, tuple)) and
+            (not pvalue or pvalue[0] is None))
+        if not untyped:
+            return CIMParameter(pname, cimtype(pvalue), value=pvalue)
+        try:
+            class_store = self.cimrepository.get_class_store(
+                localobject.namespace)
+            klass = class_store.get(localobject.classname, copy=False)
+            param_decl = klass.methods[methodname].parameters[pname]
+        except KeyError:
+            # The provider dispatcher will report what does not exist
+            return CIMParameter(pname, 'string', value=pvalue,
+                                is_array=isinstance(pvalue, (list, tuple)))
+        return CIMParameter(
+            pname, param_decl.type, value=pvalue,
+            is_array=param_decl.is_array,
+            reference_class=param_decl.reference_class,
+            embedded_object=param_decl.embedded_object)
 
     @staticmethod
     def _make_pull_imethod_resp(objs, eos, context_id):
